@@ -288,7 +288,13 @@ static void do_fault(const char *f) {
   if (strcmp(f, "spin1") == 0) { spin(NULL); }
   if (strcmp(f, "spin4") == 0) { pthread_t t; for (int i = 0; i < 3; i++) pthread_create(&t, NULL, spin, NULL); spin(NULL); }
   if (strcmp(f, "alloc") == 0) {
-    for (;;) { size_t sz = 16u << 20; char *p = malloc(sz); if (!p) { fprintf(stderr, "vcmd: out of memory\n"); exit(99); } memset(p, 1, sz); }
+    /* allocate and touch memory; without a limit stop at 1 GiB and hang (the harness machine must survive) */
+    for (size_t tot = 0;; tot += 16u << 20) {
+      size_t sz = 16u << 20; char *p = malloc(sz);
+      if (!p) { fprintf(stderr, "vcmd: out of memory\n"); exit(99); }
+      memset(p, 1, sz);
+      if (tot >= (1024u << 20)) for (;;) pause();
+    }
   }
   if (strcmp(f, "abort") == 0) abort();
   if (strcmp(f, "segv") == 0) { signal(SIGSEGV, SIG_DFL); raise(SIGSEGV); }
